@@ -183,7 +183,16 @@ def array_shard(args):
             for n in names:
                 raw[n] = cols[n]
             return vector.array(raw)
+        def multifield(pad):
+            def f():
+                fields = ([("pad0", float)] if pad else []) + [(n, float) for n in reversed(names)] + ([("pad1", float)] if pad else [])
+                wide = np.zeros(2, dtype=fields)
+                for n in names:
+                    wide[n] = cols[n]
+                return vector.array(wide[list(names)])          # a multi-field view: same memory, explicit (non-packed / permuted) field offsets
+            return f
         ctors = [("array", lambda: vector.array({n: cols[n] for n in names})), ("array(structured-ndarray)", structured),
+                 ("array(multi-field-view-of-reversed-record)", multifield(False)), ("array(multi-field-view-of-wider-record)", multifield(True)),
                  ("array(dtype)", lambda: vector.array(list(zip(*[cols[n] for n in names])), dtype=[(n, float) for n in names]))]
         if ak is not None:
             ctors += [("zip", lambda: vector.zip({n: cols[n] for n in names})),
